@@ -1,10 +1,15 @@
 #!/bin/sh
-# usage: tools/try_mutation.sh <patch.diff> <ID> [tier] [more IDs...]  -- applies the patch to /repo, runs checks, reverts.
+# usage: tools/try_mutation.sh <patch.diff> <ID> [tier] [more IDs...]
+# Applies the patch in a scratch worktree of /repo HEAD (never in /repo itself, so that other running checks are not
+# disturbed), runs the checks against it (PV_REPO), removes the worktree. Evidence / replays go to scratch directories.
 P="$1"; shift
-cd /repo || exit 2
-if [ -n "$(git status --porcelain --untracked-files=no)" ]; then echo "repo not clean"; exit 2; fi
+WT=$(mktemp -d /tmp/trywt_XXXXXX); rmdir "$WT"
+git -C /repo worktree add --detach "$WT" HEAD -q || exit 2
+cleanup() { git -C /repo worktree remove --force "$WT" 2>/dev/null; rm -rf "$WT.ev" "$WT.rp"; }
+trap cleanup EXIT
+cd "$WT" || exit 2
 if ! git apply --check "$P" 2>/dev/null; then
-  if git apply --3way "$P" 2>/dev/null && [ -z "$(git diff --name-only --diff-filter=U)" ]; then git reset -q; echo "(applied with 3way)"; else echo "PATCH DOES NOT APPLY: $P"; git reset -q; git checkout HEAD -- . ; exit 3; fi
+  if git apply --3way "$P" 2>/dev/null && [ -z "$(git diff --name-only --diff-filter=U)" ]; then git reset -q; echo "(applied with 3way)"; else echo "PATCH DOES NOT APPLY: $P"; exit 3; fi
 else
   git apply "$P"
 fi
@@ -15,8 +20,6 @@ for a in "$@"; do
 done
 for id in "$@"; do
   case "$id" in quick|thorough) continue;; esac
-  out=$(./check "$id" $TIER 2>&1); rc=$?
+  out=$(PV_REPO="$WT" PV_EVIDENCE_DIR="$WT.ev" PV_REPLAY_DIR="$WT.rp" ./check "$id" $TIER 2>&1); rc=$?
   echo "== $id $TIER rc=$rc: $(echo "$out" | grep -c '^VIOLATION') violation lines; $(echo "$out" | grep -m2 'violated\|INCONCLUSIVE' | cut -c1-220)"
 done
-git -C /repo checkout -- .
-git -C /repo status --porcelain --untracked-files=no
